@@ -37,6 +37,11 @@ var propConfigs = map[string]*propConfig{
 		"disassembly of immediates wider than 62 bits is excluded by precondition (get_id is specified for fields up to 62 bits)",
 		"round trips are stated per opcode through proof harnesses (assemble, check the word width as the dispatcher does, disassemble); Machine.Disassembler's loop over a whole program is not under contract",
 	}},
+	"C11": {pkgs: []string{"./pkg/procbuilder", "./pkg/bondmachine"}, notes: []string{
+		"decided: Machine.Jsoner/Machine_json.Dejsoner and Bondmachine.Jsoner/Bondmachine_json.Dejsoner copy every persisted field (one obligation per struct field is generated from the struct definitions, so a field added without extending the copiers fails); Dejsoner restores an opcode for every name that is registered and never leaves such an entry nil; a save-then-load harness proves field-wise equality and same-name opcode restoration for machines whose opcodes are registered",
+		"transient fields by declaration: Conproc.CpID, Conproc.SharedHDLOps, Arch.Tag (assigned by the HDL writer before use)",
+		"not decided: 'simulates identically / regenerates byte-identical Verilog' (follows only if those depend on persisted fields alone), the textual round trip of shared objects (Shared_instance.String / Shared_element.Instantiate are trusted to be inverse), EventuallyCreateInstruction (trusted contract: it keeps registered opcodes in place and does not append when the name is already registered), encoding/json itself",
+	}},
 	"C15": {pkgs: []string{"./pkg/simbox", "./pkg/bondmachine", "./pkg/procbuilder"}, notes: []string{
 		"decided: Simbox.Add appends exactly one, not suspended, rule or leaves the list untouched; Del/Suspend/Reactivate have exactly their stated effect and change nothing else; bondmachine.SimConfig.Init and procbuilder.SimConfig.Init set an option iff it was already set or some not-suspended configuration rule names it (a suspended rule has no effect on the configuration)",
 		"not decided: the print/parse round trip of rules (Rule.String against Add needs a theory of strings.Split over concatenations that the uninterpreted string model does not have), SimDrive.Init/SimReport.Init (store and compare *interface{} pointers; outside the subset) and the per-tick injection/report semantics",
@@ -170,6 +175,10 @@ func cmdCheck(args []string) {
 	sort.Strings(ikeys)
 	for _, ik := range ikeys {
 		ifc := eng.contracts[ik]
+		if ifc.Trusted {
+			eng.noteAssumption("trusted (unverified) interface-level contract: " + ik)
+			continue
+		}
 		for _, fn := range eng.ifaceTargets(ik) {
 			fn := fn
 			fk := funcKey(fn) + "@iface"
